@@ -227,7 +227,7 @@ def conditions(tier: str, seed: int) -> typing.List[Cond]:
     for cname in CONTAINERS:
         ps = pairs if thorough else rnd.sample(pairs, 3)
         for old, new in ps:
-            for r in (range(8) if thorough else [rnd.randrange(8)]):
+            for r in ([0, 3, 7] if thorough else [rnd.randrange(8)]):
                 out.append(Cond(PROP, "c14.layout", make_layout, {"container": cname, "old": old, "new": new, "r": r},
                                 {"q": int},
                                 assumptions=["extent 64*q + %d bits, q in [2, 2**40] (symbolic); enclosing delimited extent "
@@ -240,6 +240,8 @@ def conditions(tier: str, seed: int) -> typing.List[Cond]:
         ps = [(i, j) for i in range(len(REVISIONS)) for j in range(len(REVISIONS)) if i != j]
         if not thorough:
             ps = rnd.sample(ps, 4) + [(2, 3), (3, 2)]
+        elif cname not in ("field", "variant"):
+            ps = rnd.sample(ps, 8) + [(2, 3), (3, 2)]
         for w, r in ps:
             nobj = 2 if cname in ("farray", "varray", "nested-array") else 1
             variants = [(nobj, 2, True)]
@@ -251,12 +253,12 @@ def conditions(tier: str, seed: int) -> typing.List[Cond]:
                 c = rnd.choice([11, 12, 16, 40])
                 out.append(Cond(PROP, "c14.wire", make_wire,
                                 {"container": cname, "writer": w, "reader": r, "n_objects": n_objects, "n3": n3,
-                                 "variant_x": vx, "c": c, "pin": not thorough},
+                                 "variant_x": vx, "c": c, "pin": not (thorough and cname in ("field", "variant", "varray"))},
                                 {"a": int, "b": int, "cc": int, "d": int, "g": int, "t0": int, "t1": int, "t2": int},
                                 assumptions=["leaf values: every value of their uint8/uint16 types (symbolic)",
                                              "extent %d bits; array length / union variant are scaffolding" % (8 * c)],
                                 witness={"a": 1, "b": 515, "cc": 7, "d": 40000, "g": 201, "t0": 77, "t1": 40000, "t2": 3},
-                                budget=240.0, need_exhaust=True))
+                                budget=240.0 if not thorough else 150.0, need_exhaust=True))
     for family in ("bytes", "varlen"):
         nrev = len(FAMILIES[family])
         for cname in CONTAINERS:
@@ -265,7 +267,7 @@ def conditions(tier: str, seed: int) -> typing.List[Cond]:
                 ps = rnd.sample(ps, 3) + [(0, 1), (1, 0)]
             for w, r in ps:
                 nobj = 2 if cname in ("farray", "varray", "nested-array") else 1
-                for n3 in ((0, 1, 2) if thorough or family == "varlen" else (2,)):
+                for n3 in ((0, 1, 2) if family == "varlen" else (2,)):
                     out.append(Cond(PROP, "c14.wire-" + family, make_wire,
                                     {"container": cname, "writer": w, "reader": r, "n_objects": nobj, "n3": n3,
                                      "variant_x": True, "c": rnd.choice([11, 12, 16]), "pin": True, "family": family},
